@@ -1246,3 +1246,530 @@ Proof.
     + destruct (Hpi2 q eq_refl) as [s ->]. cbn [np_shape tl hd axis_sel] in *. rewrite IH. f_equal.
       rewrite <- Hsel. unfold sel_nth, zlen. now rewrite map_length.
 Qed.
+
+(* ====================================================================================
+   Part 3e: the segments stay inside the array's extent and read_segments returns the bytes
+   at the positions covered, in order *)
+Definition seg_ok (lo : Z) (s : seg) : Prop := lo <= fst s /\ 0 <= snd s.
+
+Lemma s2s_seg_ok : forall rd pre sh stride af S S' lo,
+  reads_valid sh rd -> 0 <= stride -> Forall (seg_ok lo) S ->
+  s2s_loop rd (pre ++ sh) (zlen pre) stride af S = Ok S' -> Forall (seg_ok lo) S'.
+Proof.
+  induction rd as [|c rd IH]; intros pre sh stride af S S' lo Hv Hstr HS Hrun.
+  - cbn in Hrun. now injection Hrun as <-.
+  - destruct c as [k|s|].
+    + destruct sh as [|n sh]; [cbn in Hv; contradiction|]. cbn [reads_valid] in Hv. destruct Hv as (Hn & Hk & Hv).
+      cbn [read_valid] in Hk. cbn [s2s_loop] in Hrun. rewrite py_nth_app in Hrun. cbn [bind] in Hrun.
+      replace (pre ++ n :: sh) with ((pre ++ [n]) ++ sh) in Hrun by (rewrite <- app_assoc; reflexivity).
+      replace (zlen pre + 1) with (zlen (pre ++ [n])) in Hrun by (unfold zlen; rewrite app_length; cbn; lia).
+      eapply IH in Hrun; eauto; [nia|].
+      apply Forall_map. eapply Forall_impl; [|exact HS]. intros [o l] [H1 H2]. unfold seg_ok in *. cbn [fst snd] in *. nia.
+    + destruct sh as [|n sh]; [cbn in Hv; contradiction|]. cbn [reads_valid] in Hv. destruct Hv as (Hn & Hs & Hv).
+      cbn [read_valid] in Hs. cbn [s2s_loop] in Hrun. rewrite py_nth_app in Hrun. cbn [bind] in Hrun.
+      destruct (fill_slicer_ok s n ltac:(lia)) as [f Hf]. rewrite Hf in Hrun. cbn [bind] in Hrun.
+      destruct (fill_positive s n f Hn Hs Hf) as (b & Hb & Hfr & Hfst & Hlen).
+      pose proof (fill_slicer_wf s n f Hn Hf) as Hwf.
+      assert (Ha : 0 <= f_start f) by (destruct Hwf as [(_ & Ha & _)|(Hneg & _)]; lia).
+      assert (Hstep : exists S1,
+         (if af && (f_step f =? 1)
+          then match S with (o, l) :: rest => Ok ((o + stride * f_start f, l * full_slicer_len f) :: rest) | [] => Ok [] end
+          else idxs0 <- frange f;; Ok (flat_map (fun i => map (fun s0 : seg => (fst s0 + stride * i, snd s0)) S) idxs0)) = Ok S1
+         /\ Forall (seg_ok lo) S1).
+      { destruct (af && (f_step f =? 1)).
+        - destruct S as [|[o l] rest]; eexists; (split; [reflexivity|]); [constructor|].
+          inversion HS as [|? ? [H1 H2] Hrest]; subst. constructor; [|assumption].
+          unfold seg_ok in *. cbn [fst snd] in *. rewrite Hlen. unfold zlen. nia.
+        - rewrite Hfr. cbn [bind]. eexists. split; [reflexivity|].
+          apply Forall_flat_map. apply Forall_forall. intros i Hi.
+          apply (py_indices_in_range n s i Hn ltac:(lia)) in Hi.
+          apply Forall_map. eapply Forall_impl; [|exact HS]. intros [o l] [H1 H2]. unfold seg_ok in *. cbn [fst snd] in *. nia. }
+      destruct Hstep as (S1 & HS1 & HF1). rewrite HS1 in Hrun. cbn [bind] in Hrun.
+      replace (pre ++ n :: sh) with ((pre ++ [n]) ++ sh) in Hrun by (rewrite <- app_assoc; reflexivity).
+      replace (zlen pre + 1) with (zlen (pre ++ [n])) in Hrun by (unfold zlen; rewrite app_length; cbn; lia).
+      eapply IH in Hrun; eauto. nia.
+    + cbn [reads_valid] in Hv. cbn [s2s_loop] in Hrun. eapply IH; eauto.
+Qed.
+
+Lemma in_positions p segs : In p (positions segs) <-> exists s, In s segs /\ fst s <= p < fst s + snd s.
+Proof.
+  unfold positions. rewrite in_flat_map. split; intros (s & Hs & Hp); exists s; (split; [assumption|]).
+  - unfold pos1 in Hp. apply in_map_iff in Hp. destruct Hp as (k & <- & Hk). apply zseq_In in Hk. lia.
+  - unfold pos1. apply in_map_iff. exists (p - fst s). split; [lia|]. apply zseq_In. lia.
+Qed.
+
+(* no read leaves the extent [off, off + w * size) of the array *)
+Theorem reads_in_extent rd shape off w segs :
+  reads_valid shape rd -> 0 < w ->
+  slicers2segments rd shape off w = Ok segs ->
+  Forall (fun s => 0 <= snd s /\ off <= fst s /\ (0 < snd s -> fst s + snd s <= off + w * prod shape)) segs.
+Proof.
+  intros Hv Hw Hrun. pose proof (segments_are_F_order rd shape off w segs Hv ltac:(lia) Hrun) as Hpos.
+  assert (Hok : Forall (seg_ok off) segs).
+  { unfold slicers2segments in Hrun.
+    apply (s2s_seg_ok rd [] shape w true [(off, w)] segs off Hv ltac:(lia)) in Hrun; [assumption|].
+    constructor; [|constructor]. unfold seg_ok. cbn. lia. }
+  apply Forall_forall. intros [o l] Hin. pose proof (proj1 (Forall_forall _ _) Hok _ Hin) as [H1 H2].
+  cbn [fst snd] in *. split; [assumption|]. split; [assumption|]. intros Hl.
+  assert (Hlast : In (o + l - 1) (positions segs)).
+  { apply in_positions. exists (o, l). split; [assumption|]. cbn [fst snd]. lia. }
+  rewrite Hpos in Hlast. apply in_flat_map in Hlast. destruct Hlast as (d & Hd & Hp).
+  unfold pos1 in Hp. cbn [fst snd] in Hp. apply in_map_iff in Hp. destruct Hp as (k & Hk & Hkr). apply zseq_In in Hkr.
+  replace w with (w * 1) in Hd by lia. rewrite offs_scale in Hd. apply in_map_iff in Hd. destruct Hd as (e & <- & He).
+  apply (offs_range rd shape e (reads_valid_ix_valid rd shape Hv)) in He. nia.
+Qed.
+
+Definition bytes_at (file : list Z) (P : list Z) : list Z := map (fun p => nth (Z.to_nat p) file 0) P.
+
+Lemma bytes_at_app file P Q : bytes_at file (P ++ Q) = bytes_at file P ++ bytes_at file Q.
+Proof. unfold bytes_at. apply map_app. Qed.
+
+Lemma my_nth_firstn {A} : forall (l : list A) n k d, (k < n)%nat -> nth k (firstn n l) d = nth k l d.
+Proof.
+  induction l as [|x l IH]; intros n k d H; [destruct n, k; reflexivity|].
+  destruct n; [lia|]. destruct k; [reflexivity|]. cbn. apply IH. lia.
+Qed.
+
+Lemma my_nth_skipn {A} : forall (l : list A) n k d, nth k (skipn n l) d = nth (n + k) l d.
+Proof.
+  induction l as [|x l IH]; intros n k d; [destruct n, k; reflexivity|].
+  destruct n; [reflexivity|]. cbn. apply IH.
+Qed.
+
+Lemma take_drop_bytes_at file o l : 0 <= o -> 0 <= l -> (l = 0 \/ o + l <= zlen file) ->
+  take l (drop o file) = bytes_at file (pos1 (o, l)).
+Proof.
+  intros Ho Hl Hfit. unfold take, drop, bytes_at, pos1. cbn [fst snd].
+  destruct Hfit as [->|Hfit]; [reflexivity|].
+  apply nth_ext with (d := 0) (d' := 0).
+  - rewrite firstn_length, skipn_length, map_length, map_length.
+    pose proof (zseq_length l Hl). unfold zlen in Hfit. lia.
+  - intros k Hk. rewrite firstn_length, skipn_length in Hk. unfold zlen in Hfit.
+    rewrite my_nth_firstn by lia. rewrite my_nth_skipn.
+    rewrite map_map. rewrite (nth_map_in _ (zseq l) k 0 0) by (pose proof (zseq_length l Hl); lia).
+    replace k with (Z.to_nat (Z.of_nat k)) at 2 by lia. rewrite nth_zseq by lia.
+    f_equal. lia.
+Qed.
+
+Definition seg_fits (file : list Z) (s : seg) : Prop :=
+  0 <= fst s /\ 0 <= snd s /\ (snd s = 0 \/ fst s + snd s <= zlen file).
+
+Lemma fread_at_ok file o l : seg_fits file (o, l) -> fread_at file o l = Ok (bytes_at file (pos1 (o, l))).
+Proof.
+  intros (Ho & Hl & Hfit). cbn [fst snd] in *. unfold fread_at.
+  replace (o <? 0) with false by lia. replace (l <? 0) with false by lia.
+  f_equal. unfold Model.take, Model.drop. now apply take_drop_bytes_at.
+Qed.
+
+Lemma read_all_ok file segs : Forall (seg_fits file) segs ->
+  read_all file segs = Ok (bytes_at file (positions segs)).
+Proof.
+  induction 1 as [|[o l] segs Hs HF IH]; [reflexivity|].
+  cbn [read_all]. rewrite (fread_at_ok file o l Hs). cbn [bind]. rewrite IH. cbn [bind].
+  unfold positions. cbn [flat_map]. now rewrite bytes_at_app.
+Qed.
+
+Lemma zlen_positions segs : Forall (fun s => 0 <= snd s) segs ->
+  zlen (positions segs) = fold_right (fun s a => snd s + a) 0 segs.
+Proof.
+  induction 1 as [|[o l] segs Hl HF IH]; [reflexivity|].
+  unfold positions in *. cbn [flat_map fold_right snd]. unfold zlen in *. rewrite app_length, Nat2Z.inj_add, IH.
+  unfold pos1. cbn [fst snd]. rewrite map_length. pose proof (zseq_length l Hl). lia.
+Qed.
+
+Lemma zlen_bytes_at file P : zlen (bytes_at file P) = zlen P.
+Proof. unfold bytes_at. apply zlen_map. Qed.
+
+Lemma sum_zero_all_zero (segs : list seg) : Forall (fun s : seg => 0 <= snd s) segs ->
+  fold_right (fun s a => snd s + a) 0 segs = 0 -> Forall (fun s : seg => snd s = 0) segs.
+Proof.
+  induction 1 as [|s segs Hs HF IH]; intros E0; [constructor|]. cbn [fold_right] in E0.
+  assert (0 <= fold_right (fun s a => snd s + a) 0 segs).
+  { clear -HF. induction HF as [|x l Hx HF IH]; cbn [fold_right]; lia. }
+  constructor; [lia|apply IH; lia].
+Qed.
+
+Lemma positions_all_zero (segs : list seg) : Forall (fun s : seg => snd s = 0) segs -> positions segs = [].
+Proof.
+  induction 1 as [|[o l] segs Hs HF IH]; [reflexivity|].
+  unfold positions in *. cbn [flat_map]. rewrite IH. cbn in Hs. subst l. reflexivity.
+Qed.
+
+Lemma read_multi file (segs : list seg) n_bytes : Forall (seg_fits file) segs ->
+  zlen (positions segs) = n_bytes ->
+  (if n_bytes =? 0
+   then (if forallb (fun s : seg => snd s =? 0) segs then Ok [] else Err EValue)
+   else b <- read_all file segs ;; if zlen b =? n_bytes then Ok b else Err EValue)
+  = Ok (bytes_at file (positions segs)).
+Proof.
+  intros HF Hn.
+  destruct (n_bytes =? 0) eqn:E0.
+    + apply Z.eqb_eq in E0. subst n_bytes.
+      assert (Hnn : Forall (fun s : seg => 0 <= snd s) segs)
+        by (eapply Forall_impl; [|exact HF]; intros s (_ & H & _); exact H).
+      rewrite zlen_positions in E0 by assumption.
+      pose proof (sum_zero_all_zero segs Hnn E0) as Hz.
+      replace (forallb (fun s : seg => snd s =? 0) segs) with true.
+      * f_equal. now rewrite (positions_all_zero segs Hz).
+      * symmetry. apply forallb_forall. intros s Hs. apply Z.eqb_eq.
+        now apply (proj1 (Forall_forall _ _) Hz).
+    + rewrite read_all_ok by assumption. cbn [bind]. rewrite zlen_bytes_at, Hn. now rewrite Z.eqb_refl.
+Qed.
+
+Lemma read_segments_ok file segs n_bytes : Forall (seg_fits file) segs ->
+  zlen (positions segs) = n_bytes ->
+  read_segments file segs n_bytes = Ok (bytes_at file (positions segs)).
+Proof.
+  intros HF Hn. unfold read_segments.
+  destruct segs as [|[o l] [|s2 rest]].
+  - cbn in Hn. subst. reflexivity.
+  - pose proof (Forall_inv HF) as Hs. rewrite (fread_at_ok file o l Hs). cbn [bind].
+    unfold positions in *. cbn [flat_map] in *. rewrite app_nil_r in *.
+    rewrite zlen_bytes_at, Hn. now rewrite Z.eqb_refl.
+  - now apply read_multi.
+Qed.
+
+(* w-byte elements of a concatenation of w-byte blocks *)
+Lemma chunks_flat_map {A} (g : A -> list Z) w : 0 < w -> (forall d, zlen (g d) = w) ->
+  forall E fuel, (length E <= fuel)%nat -> chunks fuel w (flat_map g E) = map g E.
+Proof.
+  intros Hw Hg. induction E as [|d E IH]; intros fuel Hf.
+  - destruct fuel; reflexivity.
+  - destruct fuel as [|fuel]; [cbn in Hf; lia|]. cbn [flat_map chunks map].
+    pose proof (Hg d) as Hd. destruct (g d ++ flat_map g E) as [|x xs] eqn:Ex.
+    + destruct (g d); [unfold zlen in Hd; cbn in Hd; lia|discriminate].
+    + rewrite <- Ex. unfold Model.take, Model.drop.
+      assert (E1 : Z.to_nat w = length (g d)) by (unfold zlen in Hd; lia). rewrite E1.
+      rewrite firstn_app, Nat.sub_diag, firstn_all. cbn [firstn]. rewrite app_nil_r.
+      rewrite skipn_app, Nat.sub_diag, skipn_all. cbn [skipn app]. f_equal. apply IH. cbn in Hf. lia.
+Qed.
+
+Lemma concat_map_flat_map {A} (g : A -> list Z) l : concat (map g l) = flat_map g l.
+Proof. induction l as [|x l IH]; [reflexivity|]. cbn. now rewrite IH. Qed.
+
+(* ====================================================================================
+   Part 3f: assembling the final theorem (Fortran order first) *)
+Definition elem_bytes (file : list Z) (off w d : Z) : list Z := bytes_at file (pos1 (off + d, w)).
+
+Lemma zlen_elem_bytes file off w d : 0 <= w -> zlen (elem_bytes file off w d) = w.
+Proof.
+  intros Hw. unfold elem_bytes. rewrite zlen_bytes_at. unfold pos1, zlen. cbn [fst snd].
+  rewrite map_length. now apply zseq_length.
+Qed.
+
+Lemma bytes_at_flat_map file (F : Z -> list Z) E :
+  bytes_at file (flat_map F E) = flat_map (fun d => bytes_at file (F d)) E.
+Proof. unfold bytes_at. apply map_flat_map. Qed.
+
+Lemma concat_sel_elems (g : Z -> list Z) E J : (forall j, In j J -> 0 <= j < zlen E) ->
+  concat (map (fun o => nth (Z.to_nat o) (map g E) []) J) = flat_map g (sel_nth E J).
+Proof.
+  intros HJ. rewrite concat_map_flat_map. unfold sel_nth. rewrite flat_map_map.
+  apply flat_map_ext_in'. intros j Hj. specialize (HJ j Hj). unfold zlen in HJ.
+  apply nth_map_in. lia.
+Qed.
+
+Lemma all_none_identity : forall ps rshape,
+  forallb post_is_none_slice ps = true -> ix_valid rshape (map post_to_cidx ps) ->
+  offs rshape (map post_to_cidx ps) 1 = zseq (prod rshape) /\ np_shape rshape (map post_to_cidx ps) = rshape.
+Proof.
+  induction ps as [|p ps IH]; intros rshape Hall Hv.
+  - cbn in Hv. subst. split; reflexivity.
+  - cbn [forallb] in Hall. apply andb_true_iff in Hall. destruct Hall as [Hp Hall].
+    destruct p as [|k|q]; try discriminate. cbn [post_is_none_slice] in Hp. apply pslice_eqb_none in Hp. subst q.
+    cbn [map post_to_cidx ix_valid] in Hv. destruct rshape as [|n rs]; [contradiction|]. destruct Hv as (Hn & _ & Hv).
+    destruct (IH rs Hall Hv) as [IH1 IH2].
+    cbn [map post_to_cidx offs np_shape axis_sel tl hd]. rewrite IH2. rewrite (py_indices_none n Hn). split.
+    + replace (1 * n) with (n * 1) by lia. rewrite offs_scale, IH1. rewrite flat_map_map.
+      cbn [prod fold_right]. fold (prod rs).
+      assert (Hp : 0 <= prod rs) by (apply prod_nonneg; now apply (ix_valid_shape_nonneg _ _ Hv)).
+      pose proof (block_split 0 n (prod rs) Hn Hp) as B.
+      rewrite <- (map_id (zseq (n * prod rs))). rewrite (map_ext _ (fun k => 0 + k)) by (intros; lia).
+      rewrite B. apply flat_map_ext. intros j. apply map_ext. intros; lia.
+    + f_equal. unfold zlen. now apply zseq_length.
+Qed.
+
+Lemma sel_nth_self E : sel_nth E (zseq (zlen E)) = E.
+Proof.
+  unfold sel_nth. apply nth_ext with (d := 0) (d' := 0).
+  - rewrite map_length. unfold zseq. rewrite map_length, seq_length. unfold zlen. lia.
+  - intros k Hk. rewrite map_length in Hk. unfold zseq in Hk. rewrite map_length, seq_length in Hk. unfold zlen in Hk.
+    rewrite (nth_map_in _ (zseq (zlen E)) k 0 0) by (unfold zseq, zlen; rewrite map_length, seq_length; lia).
+    replace k with (Z.to_nat (Z.of_nat k)) at 1 by lia. rewrite nth_zseq by (unfold zlen; lia).
+    now rewrite Nat2Z.id.
+Qed.
+
+(* specification side: the elements of the stored array *)
+Lemma array_elems_spec file shape w off : 0 < w -> 0 <= off -> Forall (fun n => 0 <= n) shape ->
+  off + w * prod shape <= zlen file ->
+  array_elems file shape w off = map (fun i => elem_bytes file off w (w * i)) (zseq (prod shape)).
+Proof.
+  intros Hw Hoff Hsh Hfit. pose proof (prod_nonneg shape Hsh) as HP. unfold array_elems.
+  rewrite take_drop_bytes_at by nia.
+  replace (prod shape * w) with (w * prod shape) by lia.
+  replace (pos1 (off, w * prod shape))
+    with (flat_map (fun j => map (fun k => off + w * j + k) (zseq w)) (zseq (prod shape)))
+    by (symmetry; unfold pos1; cbn [fst snd]; apply block_split; lia).
+  rewrite bytes_at_flat_map. cbv beta.
+  assert (Hblk : forall d, zlen (bytes_at file (map (fun k => off + w * d + k) (zseq w))) = w).
+  { intros d. rewrite zlen_bytes_at. unfold zlen. rewrite map_length. apply zseq_length. lia. }
+  rewrite (chunks_flat_map (fun j => bytes_at file (map (fun k => off + w * j + k) (zseq w))) w Hw Hblk).
+  - apply map_ext. intros i. unfold elem_bytes, pos1. cbn [fst snd]. reflexivity.
+  - pose proof (zlen_flat_map_const (fun j => bytes_at file (map (fun k => off + w * j + k) (zseq w))) w (zseq (prod shape)) Hblk) as HL.
+    unfold zlen in HL. nia.
+Qed.
+
+Definition result_spec (file : list Z) (shape : list Z) (w off : Z) (c : list cidx) : list Z * list Z :=
+  (np_shape shape c, flat_map (elem_bytes file off w) (offs shape c w)).
+
+Lemma numpy_side_F file shape w off c : 0 < w -> 0 <= off -> ix_valid shape c ->
+  off + w * prod shape <= zlen file ->
+  (let '(s, e) := np_index_F [] shape c (array_elems file shape w off) in (s, concat e))
+  = result_spec file shape w off c.
+Proof.
+  intros Hw Hoff Hv Hfit. unfold np_index_F, result_spec. f_equal.
+  rewrite array_elems_spec by (try assumption; now apply (ix_valid_shape_nonneg c)).
+  rewrite (concat_sel_elems (fun i => elem_bytes file off w (w * i))).
+  - replace (offs shape c w) with (map (fun x => w * x) (offs shape c 1))
+      by (rewrite <- offs_scale; f_equal; lia).
+    unfold sel_nth. rewrite flat_map_map, flat_map_map. apply flat_map_ext_in'. intros o Ho.
+    apply (offs_range c shape o Hv) in Ho.
+    f_equal. rewrite nth_zseq by lia. reflexivity.
+  - intros j Hj. apply (offs_range c shape j Hv) in Hj. unfold zlen.
+    rewrite zseq_length; [lia|]. apply prod_nonneg. now apply (ix_valid_shape_nonneg c).
+Qed.
+
+Lemma impl_core_F file shape w off c rd ps segs : 0 < w -> 0 <= off ->
+  rp_rel shape c rd ps -> off + w * prod shape <= zlen file ->
+  slicers2segments rd shape off w = Ok segs ->
+  let rshape := np_shape shape rd in
+  let posts := map post_to_cidx ps in
+  exists b, read_segments file segs (prod rshape * w) = Ok b
+    /\ (let '(s, e) := np_index_F [] rshape posts (chunks (length b) w b) in (s, concat e))
+       = result_spec file shape w off c
+    /\ (forallb post_is_none_slice ps = true -> (rshape, b) = result_spec file shape w off c).
+Proof.
+  intros Hw Hoff Hrel Hfit Hsegs rshape posts.
+  pose proof (rp_rel_reads_valid _ _ _ _ Hrel) as Hrv.
+  pose proof (rp_rel_post_valid _ _ _ _ Hrel) as Hpv.
+  pose proof (segments_are_F_order rd shape off w segs Hrv ltac:(lia) Hsegs) as Hpos.
+  pose proof (reads_in_extent rd shape off w segs Hrv Hw Hsegs) as Hext.
+  set (E := offs shape rd w) in *.
+  assert (HE : zlen E = prod rshape) by (apply offs_length; now apply reads_valid_ix_valid).
+  assert (Hfits : Forall (seg_fits file) segs).
+  { eapply Forall_impl; [|exact Hext]. intros [o l] (H1 & H2 & H3). cbn [fst snd] in *.
+    unfold seg_fits. cbn [fst snd]. split; [lia|]. split; [lia|].
+    destruct (Z.eq_dec l 0); [left; assumption|right]. specialize (H3 ltac:(lia)). lia. }
+  assert (Hb : bytes_at file (positions segs) = flat_map (elem_bytes file off w) E).
+  { rewrite Hpos. apply bytes_at_flat_map. }
+  assert (Hn : zlen (positions segs) = prod rshape * w).
+  { rewrite <- zlen_bytes_at with (file := file). rewrite Hb.
+    rewrite (zlen_flat_map_const _ w) by (intros; apply zlen_elem_bytes; lia). lia. }
+  exists (bytes_at file (positions segs)). split; [now apply read_segments_ok|].
+  rewrite Hb.
+  assert (Hch : chunks (length (flat_map (elem_bytes file off w) E)) w (flat_map (elem_bytes file off w) E)
+                = map (elem_bytes file off w) E).
+  { apply chunks_flat_map; [assumption|intros; apply zlen_elem_bytes; lia|].
+    pose proof (zlen_flat_map_const (elem_bytes file off w) w E ltac:(intros; apply zlen_elem_bytes; lia)) as HL.
+    unfold zlen in HL. nia. }
+  rewrite Hch.
+  assert (Hcomp := compose_offs shape c rd ps Hrel w). fold E rshape posts in Hcomp.
+  split.
+  - unfold np_index_F, result_spec. f_equal.
+    + now apply np_shape_compose.
+    + rewrite concat_sel_elems; [now rewrite Hcomp|].
+      intros j Hj. rewrite HE. now apply (offs_range posts rshape j Hpv).
+  - intros Hall. destruct (all_none_identity ps rshape Hall Hpv) as [Ho Hs].
+    unfold result_spec. f_equal.
+    + rewrite <- (np_shape_compose shape c rd ps Hrel). symmetry. exact Hs.
+    + rewrite <- Hcomp. unfold posts. rewrite Ho, <- HE. now rewrite sel_nth_self.
+Qed.
+
+Theorem fileslice_eq_numpy_F h file ix shape w off c : h_ok h -> 0 < w -> 0 <= off ->
+  canonical_slicers true ix shape = Ok c -> ix_valid shape c ->
+  off + w * prod shape <= zlen file ->
+  fileslice_h h file ix shape w off OrdF = Ok (result_spec file shape w off c)
+  /\ numpy_slice file ix shape w off OrdF = Ok (result_spec file shape w off c).
+Proof.
+  intros Hh Hw Hoff Hc Hv Hfit. split.
+  - unfold fileslice_h, calc_slicedefs. rewrite Hc. cbn [bind].
+    unfold optimize_read_slicers.
+    destruct (opt_read_loop_total c [] shape h w true Hh Hv) as (rd & ps & Ho).
+    change (opt_read_loop c shape h 0 w true) with (opt_read_loop c ([] ++ shape) h (zlen (@nil Z)) w true).
+    rewrite Ho. cbn [bind].
+    pose proof (opt_read_loop_sound c [] shape h w true rd ps Hv Ho) as Hrel.
+    pose proof (rp_rel_reads_valid _ _ _ _ Hrel) as Hrv.
+    destruct (slicers2segments_total rd shape off w Hrv) as (segs & Hs). rewrite Hs. cbn [bind].
+    rewrite (predict_shape_reads rd shape Hrv). cbn [bind].
+    destruct (impl_core_F file shape w off c rd ps segs Hw Hoff Hrel Hfit Hs) as (b & Hb & Hres & Hnone).
+    rewrite Hb. cbn [bind].
+    destruct (forallb post_is_none_slice ps) eqn:Eall.
+    + f_equal. now apply Hnone.
+    + destruct ps as [|p ps']; [discriminate|]. cbn [np_index]. cbv zeta in Hres. cbn [map] in Hres |- *.
+      destruct (np_index_F [] (np_shape shape rd) (post_to_cidx p :: map post_to_cidx ps') (chunks (length b) w b)) as [s e] eqn:En.
+      now f_equal.
+  - unfold numpy_slice. rewrite Hc. cbn [bind np_index].
+    pose proof (numpy_side_F file shape w off c Hw Hoff Hv Hfit) as Hn.
+    destruct (np_index_F [] shape c (array_elems file shape w off)) as [s e]. now f_equal.
+Qed.
+
+(* ====================================================================================
+   C order: the code reverses shape and index, works in F order, and reverses back *)
+Definition is_cnew (c : cidx) : bool := match c with CNew => true | _ => false end.
+Definition reals (c : list cidx) : list cidx := filter (fun x => negb (is_cnew x)) c.
+Definition axis_ok (n : Z) (x : cidx) : Prop := 0 <= n /\ valid_cidx n x.
+
+Lemma ix_valid_Forall2 : forall c shape, ix_valid shape c <-> Forall2 axis_ok shape (reals c).
+Proof.
+  induction c as [|x c IH]; intros shape.
+  - cbn. split; [intros ->; constructor|intros H; now inversion H].
+  - destruct x as [k|s|]; cbn [ix_valid reals filter is_cnew negb].
+    + destruct shape as [|n sh]; [split; [contradiction|intros H; inversion H]|].
+      fold (reals c). split.
+      * intros (Hn & Hx & Hv). constructor; [split; assumption|now apply IH].
+      * intros H. inversion H as [|? ? ? ? [Hn Hx] Hr]; subst. split; [assumption|]. split; [assumption|now apply IH].
+    + destruct shape as [|n sh]; [split; [contradiction|intros H; inversion H]|].
+      fold (reals c). split.
+      * intros (Hn & Hx & Hv). constructor; [split; assumption|now apply IH].
+      * intros H. inversion H as [|? ? ? ? [Hn Hx] Hr]; subst. split; [assumption|]. split; [assumption|now apply IH].
+    + fold (reals c). apply IH.
+Qed.
+
+Lemma Forall2_rev' {A B} (R : A -> B -> Prop) l l' : Forall2 R l l' -> Forall2 R (rev l) (rev l').
+Proof.
+  induction 1 as [|x y l l' Hxy HF IH]; [constructor|]. cbn [rev].
+  apply Forall2_app; [assumption|]. constructor; [assumption|constructor].
+Qed.
+
+Lemma reals_rev c : reals (rev c) = rev (reals c).
+Proof.
+  unfold reals. induction c as [|x c IH]; [reflexivity|]. cbn [rev filter].
+  rewrite filter_app, IH. cbn [filter]. destruct (negb (is_cnew x)); cbn [rev]; [reflexivity|now rewrite app_nil_r].
+Qed.
+
+Lemma ix_valid_rev shape c : ix_valid shape c -> ix_valid (rev shape) (rev c).
+Proof. rewrite !ix_valid_Forall2, reals_rev. apply Forall2_rev'. Qed.
+
+Lemma prod_app a b : prod (a ++ b) = prod a * prod b.
+Proof.
+  induction a as [|x a IH].
+  - cbn [app]. unfold prod at 2. cbn [fold_right]. lia.
+  - cbn [app]. unfold prod in *. cbn [fold_right]. rewrite IH. lia.
+Qed.
+
+Lemma prod_rev l : prod (rev l) = prod l.
+Proof.
+  induction l as [|x l IH]; [reflexivity|]. cbn [rev]. rewrite prod_app, IH.
+  cbn [prod fold_right]. fold (prod l). lia.
+Qed.
+
+Lemma forallb_rev {A} (f : A -> bool) l : forallb f (rev l) = forallb f l.
+Proof.
+  induction l as [|x l IH]; [reflexivity|]. cbn [rev forallb]. rewrite forallb_app, IH. cbn [forallb].
+  destruct (f x), (forallb f l); reflexivity.
+Qed.
+
+Definition result_spec_C (file : list Z) (shape : list Z) (w off : Z) (c : list cidx) : list Z * list Z :=
+  let '(s, e) := result_spec file (rev shape) w off (rev c) in (rev s, e).
+
+Theorem fileslice_eq_numpy_C h file ix shape w off c : h_ok h -> 0 < w -> 0 <= off ->
+  canonical_slicers true ix shape = Ok c -> ix_valid shape c ->
+  off + w * prod shape <= zlen file ->
+  fileslice_h h file ix shape w off OrdC = Ok (result_spec_C file shape w off c)
+  /\ numpy_slice file ix shape w off OrdC = Ok (result_spec_C file shape w off c).
+Proof.
+  intros Hh Hw Hoff Hc Hv Hfit.
+  pose proof (ix_valid_rev shape c Hv) as Hvr.
+  assert (Hfitr : off + w * prod (rev shape) <= zlen file) by now rewrite prod_rev.
+  split.
+  - unfold fileslice_h, calc_slicedefs. rewrite Hc. cbn [bind].
+    unfold optimize_read_slicers.
+    destruct (opt_read_loop_total (rev c) [] (rev shape) h w true Hh Hvr) as (rd & ps & Ho).
+    change (opt_read_loop (rev c) (rev shape) h 0 w true)
+      with (opt_read_loop (rev c) ([] ++ rev shape) h (zlen (@nil Z)) w true).
+    rewrite Ho. cbn [bind].
+    pose proof (opt_read_loop_sound (rev c) [] (rev shape) h w true rd ps Hvr Ho) as Hrel.
+    pose proof (rp_rel_reads_valid _ _ _ _ Hrel) as Hrv.
+    destruct (slicers2segments_total rd (rev shape) off w Hrv) as (segs & Hs). rewrite Hs. cbn [bind].
+    rewrite (predict_shape_reads rd (rev shape) Hrv). cbn [bind].
+    destruct (impl_core_F file (rev shape) w off (rev c) rd ps segs Hw Hoff Hrel Hfitr Hs) as (b & Hb & Hres & Hnone).
+    rewrite prod_rev. rewrite Hb. cbn [bind]. unfold result_spec_C.
+    destruct (forallb post_is_none_slice ps) eqn:Eall.
+    + cbn [rev]. specialize (Hnone eq_refl). rewrite <- Hnone. reflexivity.
+    + destruct (rev ps) as [|p ps'] eqn:Er.
+      * apply (f_equal (@rev post)) in Er. rewrite rev_involutive in Er. subst ps. discriminate.
+      * rewrite <- Er. cbn [np_index]. rewrite rev_involutive, <- map_rev, rev_involutive.
+        cbv zeta in Hres.
+        destruct (np_index_F [] (np_shape (rev shape) rd) (map post_to_cidx ps) (chunks (length b) w b)) as [s e] eqn:En.
+        rewrite <- Hres. reflexivity.
+  - unfold numpy_slice. rewrite Hc. cbn [bind np_index]. unfold result_spec_C.
+    pose proof (numpy_side_F file (rev shape) w off (rev c) Hw Hoff Hvr Hfitr) as Hn.
+    assert (Ha : array_elems file shape w off = array_elems file (rev shape) w off)
+      by (unfold array_elems; now rewrite prod_rev).
+    rewrite Ha.
+    destruct (np_index_F [] (rev shape) (rev c) (array_elems file (rev shape) w off)) as [s e].
+    rewrite <- Hn. reflexivity.
+Qed.
+
+(* ====================================================================================
+   Statements used by Props.v *)
+Lemma threshold_h_ok t : h_ok (threshold_heuristic t).
+Proof. intros k n s. unfold threshold_heuristic. destruct (_ <=? _); discriminate. Qed.
+
+Definition result_of (o : order) := match o with OrdF => result_spec | OrdC => result_spec_C end.
+
+Theorem fileslice_eq_numpy h file ix shape w off o c : h_ok h -> 0 < w -> 0 <= off ->
+  canonical_slicers true ix shape = Ok c -> ix_valid shape c ->
+  off + w * prod shape <= zlen file ->
+  fileslice_h h file ix shape w off o = numpy_slice file ix shape w off o
+  /\ numpy_slice file ix shape w off o = Ok (result_of o file shape w off c).
+Proof.
+  intros Hh Hw Hoff Hc Hv Hfit. destruct o.
+  - destruct (fileslice_eq_numpy_C h file ix shape w off c Hh Hw Hoff Hc Hv Hfit) as [H1 H2].
+    split; [now rewrite H1, H2|exact H2].
+  - destruct (fileslice_eq_numpy_F h file ix shape w off c Hh Hw Hoff Hc Hv Hfit) as [H1 H2].
+    split; [now rewrite H1, H2|exact H2].
+Qed.
+
+(* decidable version of ix_valid, evaluated by the harness on every successful case *)
+Lemma ix_validb_spec : forall ix shape, ix_validb shape ix = true -> ix_valid shape ix.
+Proof.
+  induction ix as [|c ix IH]; intros shape H.
+  - destruct shape; [reflexivity|discriminate].
+  - destruct c as [k|s|]; cbn [ix_validb ix_valid] in *; [| |now apply IH];
+      (destruct shape as [|n sh]; [discriminate|]);
+      apply andb_true_iff in H; destruct H as [H H3]; apply andb_true_iff in H; destruct H as [H1 H2];
+      (split; [lia|]); (split; [cbn [valid_cidxb valid_cidx] in *; lia|now apply IH]).
+Qed.
+
+(* every read of calc_slicedefs lies inside the array's extent, and the lengths add up *)
+Theorem calc_slicedefs_extent h ix shape w off o c segs rshape ps : h_ok h -> 0 < w -> 0 <= off ->
+  canonical_slicers true ix shape = Ok c -> ix_valid shape c ->
+  calc_slicedefs ix shape w off o h = Ok (segs, rshape, ps) ->
+  Forall (fun s => 0 <= snd s /\ off <= fst s /\ (0 < snd s -> fst s + snd s <= off + w * prod shape)) segs
+  /\ fold_right (fun s a => snd s + a) 0 segs = w * prod rshape.
+Proof.
+  intros Hh Hw Hoff Hc Hv Hrun. unfold calc_slicedefs in Hrun. rewrite Hc in Hrun. cbn [bind] in Hrun.
+  set (c1 := match o with OrdC => rev c | OrdF => c end) in *.
+  set (sh1 := match o with OrdC => rev shape | OrdF => shape end) in *.
+  assert (Hv1 : ix_valid sh1 c1) by (destruct o; [now apply ix_valid_rev|assumption]).
+  assert (Hp1 : prod sh1 = prod shape) by (destruct o; [apply prod_rev|reflexivity]).
+  unfold optimize_read_slicers in Hrun.
+  destruct (opt_read_loop_total c1 [] sh1 h w true Hh Hv1) as (rd & ps0 & Ho).
+  change (opt_read_loop c1 sh1 h 0 w true) with (opt_read_loop c1 ([] ++ sh1) h (zlen (@nil Z)) w true) in Hrun.
+  rewrite Ho in Hrun. cbn [bind] in Hrun.
+  pose proof (opt_read_loop_sound c1 [] sh1 h w true rd ps0 Hv1 Ho) as Hrel.
+  pose proof (rp_rel_reads_valid _ _ _ _ Hrel) as Hrv.
+  destruct (slicers2segments_total rd sh1 off w Hrv) as (segs0 & Hs). rewrite Hs in Hrun. cbn [bind] in Hrun.
+  rewrite (predict_shape_reads rd sh1 Hrv) in Hrun. cbn [bind] in Hrun.
+  assert (Hsegs : segs = segs0 /\ prod rshape = prod (np_shape sh1 rd)).
+  { destruct o; injection Hrun as <- <- _; split; try reflexivity. apply prod_rev. }
+  destruct Hsegs as [-> Hpr]. split.
+  - rewrite <- Hp1. now apply (reads_in_extent rd sh1 off w segs0 Hrv Hw).
+  - pose proof (reads_in_extent rd sh1 off w segs0 Hrv Hw Hs) as Hext.
+    rewrite <- zlen_positions by (eapply Forall_impl; [|exact Hext]; intros s (H & _); exact H).
+    rewrite (segments_are_F_order rd sh1 off w segs0 Hrv ltac:(lia) Hs).
+    rewrite (zlen_flat_map_const _ w).
+    + rewrite offs_length by now apply reads_valid_ix_valid. rewrite Hpr. reflexivity.
+    + intros d. unfold pos1, zlen. cbn [fst snd]. rewrite map_length. apply zseq_length. lia.
+Qed.
